@@ -206,13 +206,121 @@ def search_pack_states(ck):
     ck.count('pack-state sweep (elements x isotopes, charges x radical, hydrogens)')
 
 
+def search_variant_symbols(ck):
+    """query and dynamic variants: class lookup by number and by symbol, construction from an atom, and the symbol / number the
+    INSTANCE reports, for all 118 elements (the symbol of a variant is derived from its class name)"""
+    import chython.periodictable as pt
+    from chython.periodictable import Element, DynamicElement, QueryElement
+    for n, sym in enumerate(ORACLE_SYMBOLS, 1):
+        ck.case(('variant-symbol', sym))
+        atom = None
+        probes = []
+        try:
+            atom = Element.from_symbol(sym)()
+            probes.append(('Element instance', atom))
+        except Exception:
+            pass
+        for pref, base in (('Dynamic', DynamicElement), ('Query', QueryElement)):
+            for how, get in (('from_atomic_number', lambda: base.from_atomic_number(n)), ('from_symbol', lambda: base.from_symbol(sym)),
+                             ('module attribute', lambda: getattr(pt, pref + sym))):
+                try:
+                    c = get()
+                    inst = c(None) if pref == 'Dynamic' else c()
+                    probes.append((f'{pref}Element.{how}', inst))
+                except Exception as e:
+                    probes.append((f'{pref}Element.{how}', e))
+            if atom is not None:
+                try:
+                    probes.append((f'{pref}Element.from_atom', base.from_atom(atom)))
+                except Exception as e:
+                    probes.append((f'{pref}Element.from_atom', e))
+        for how, inst in probes:
+            if isinstance(inst, Exception):
+                got = f'raises {type(inst).__name__}'
+            else:
+                try:
+                    got = [inst.atomic_symbol, inst.atomic_number]
+                except Exception as e:
+                    got = f'raises {type(e).__name__}'
+            if got != [sym, n]:
+                ck.counterexample(f'variant-symbol:{how}:{sym}', f'{sym}: the variant obtained through {how} does not report symbol {sym} / number {n}',
+                                  {'element': sym, 'number': n, 'via': how}, got, [sym, n], 'standard table',
+                                  replay_py=f"from chython.periodictable import Element, DynamicElement, QueryElement\n"
+                                            f"print(DynamicElement.from_atomic_number({n})(None).atomic_symbol, QueryElement.from_atomic_number({n})().atomic_symbol, "
+                                            f"DynamicElement.from_atom(Element.from_symbol({sym!r})()).atomic_symbol)")
+    ck.count('variant symbol sweep (118 elements x 9 ways to obtain a variant)')
+
+
+def search_matcher_states(ck):
+    """every tabulated (element, isotope), every charge -4..4 x radical x hydrogen count 0..4 is representable in the matcher bit
+    layout, end to end: a one-atom molecule in that state must be found by queries that do not constrain the state (element,
+    any-element and list query atoms), by the query that spells the state out, and must NOT be found by a query that differs in one
+    field; the accelerated path (transpiled _isomorphism.pyx over the encoders of isomorphism.py) and the reference matcher must agree"""
+    import iso_pyx
+    try:
+        iso_pyx.inject()
+    except Exception as e:
+        ck.unchecked('pyx transpiler (_isomorphism) for the matcher representability sweep', f'{type(e).__name__}: {e}')
+        return
+    from chython import MoleculeContainer, QueryContainer
+    from chython.periodictable import Element, QueryElement, AnyElement, ListElement
+
+    def Q(a):
+        q = QueryContainer('')
+        q.add_atom(a, 1)
+        return q
+
+    n_bad = 0
+    for n, sym in enumerate(ORACLE_SYMBOLS, 1):
+        cls = Element.from_symbol(sym)
+        qcls = QueryElement.from_symbol(sym)
+        other = 'C' if sym != 'C' else 'N'
+        isos = sorted(cls().isotopes_distribution)
+        states = [(iso, 0, False, 0) for iso in isos]
+        states += [(None, ch, rad, h) for ch in range(-4, 5) for rad in (False, True) for h in range(5)]
+        for iso, ch, rad, h in states:
+            m = MoleculeContainer()
+            m.add_atom(cls(iso, charge=ch, is_radical=rad), 1)
+            m._atoms[1]._implicit_hydrogens = h
+            m.flush_cache()
+            ck.case(('matcher-state', sym, iso, ch, rad, h))
+            probes = [('element query without isotope/hydrogen constraint', lambda: qcls(charge=ch, is_radical=rad), True),
+                      ('any-element query', lambda: AnyElement(charge=ch, is_radical=rad), True),
+                      ('list query', lambda: ListElement([other, sym], charge=ch, is_radical=rad), True),
+                      ('element query spelling the state out', lambda: qcls(iso, charge=ch, is_radical=rad, implicit_hydrogens=h), True),
+                      ('element query with another hydrogen count', lambda: qcls(charge=ch, is_radical=rad, implicit_hydrogens=(h + 1) % 5), False),
+                      ('element query with another charge', lambda: qcls(charge=ch + 1 if ch < 4 else -4, is_radical=rad), False),
+                      ('element query with the other radical flag', lambda: qcls(charge=ch, is_radical=not rad), False)]
+            if iso is not None:
+                probes.append(('element query with another tabulated isotope', lambda: qcls(next((i for i in isos if i != iso), iso + 1), charge=ch, is_radical=rad), False))
+            for what, mk, want in probes:
+                res = []
+                for cy in (True, False):
+                    try:
+                        res.append(list(Q(mk()).get_mapping(m, _cython=cy)))
+                    except Exception as e:
+                        res.append(f'raises {type(e).__name__}: {e}')
+                exp = [{1: 1}] if want else []
+                if (res[0] != exp or res[1] != exp) and n_bad < 12:
+                    n_bad += 1
+                    ck.counterexample(f'matcher-state:{what}:{sym}:{iso}:{ch}:{rad}:{h}',
+                                      f'{sym} (isotope {iso}, charge {ch}, radical {rad}, hydrogens {h}) vs {what}: the matcher does not represent the state',
+                                      {'element': sym, 'isotope': iso, 'charge': ch, 'radical': rad, 'hydrogens': h, 'query': what},
+                                      {'accelerated': res[0], 'reference': res[1]}, exp, 'one-atom molecule, state-level expectation',
+                                      replay_py=f"import iso_pyx; iso_pyx.inject()\nfrom chython import MoleculeContainer, QueryContainer\nfrom chython.periodictable import Element, QueryElement\n"
+                                                f"m=MoleculeContainer(); m.add_atom(Element.from_symbol({sym!r})({iso!r}, charge={ch}, is_radical={rad}), 1); m._atoms[1]._implicit_hydrogens={h}; m.flush_cache()\n"
+                                                f"q=QueryContainer(''); q.add_atom(QueryElement.from_symbol({sym!r})(charge={ch}, is_radical={rad}), 1)\nprint(list(q.get_mapping(m)), list(q.get_mapping(m, _cython=False)))")
+    ck.count('matcher-state sweep (elements x isotopes, charges x radical x hydrogens; 7-8 queries each, both matchers)')
+
+
 replay = common.generic_replay
 
 
 def run(ck):
     ck.trusted += ['translator tools/gen_elements.py (Python ast over periodictable/group*.py; regex over the two .pyx tables)',
                    'tools/gen_runtime.py (imports chython under the CachedMethods shim harness/boot.py)',
-                   'CPython 3.12.1', 'tools/pyx2py.py (fail-closed .pyx transpiler, for the pack representability sweep)']
+                   'CPython 3.12.1', 'tools/pyx2py.py (fail-closed .pyx transpiler, for the pack representability sweep)',
+                   'harness/iso_pyx.py (fail-closed transpiler of _isomorphism.pyx, for the matcher representability sweep)']
     ck.assumptions += ['generated coq/gen/Elements.v is a faithful copy of the literals in /repo (translator is fail-closed; '
                        'the Python sweep below re-derives every statement from the live classes without the translator)']
     ck.extra['rule'] = ('proof: every statement quantifies over the complete generated table (118 elements x all tabulated isotopes); '
@@ -223,4 +331,6 @@ def run(ck):
     search(ck)
     search_lookup_entry_points(ck)
     search_pack_states(ck)
+    search_variant_symbols(ck)
+    search_matcher_states(ck)
     ck.extra['proved'] = proved
